@@ -1,6 +1,7 @@
 package main
 
 import (
+	"github.com/dop251/goja"
 	"fmt"
 	"math/rand"
 	"strings"
@@ -197,6 +198,8 @@ func genMore(stream string, r *rand.Rand, n int, thorough bool, emit func(string
 		genPrint(r, n, emit)
 	case "printt":
 		genPrintTree(r, n, thorough, emit)
+	case "sv":
+		genSV(r, n, emit)
 	default:
 		return false
 	}
@@ -204,3 +207,100 @@ func genMore(stream string, r *rand.Rand, n int, thorough bool, emit func(string
 }
 
 var _ = strings.Join
+
+// genSV: bodies of string literals built from the escape forms of the StringValue specification
+// (XjsModel/Spec/StringValue.lean), each with the UTF-16 code units a JavaScript engine (goja) computes for the
+// literal. Lines on which the engine panics are not emitted. The model driver evaluates the specification on the
+// same body; the two answers are compared (validation of the trusted specification, no xjs code involved).
+func genSV(r *rand.Rand, n int, emit func(string)) {
+	hex := "0123456789abcdefABCDEF"
+	hx := func(k int) string {
+		b := make([]byte, k)
+		for i := range b {
+			b[i] = hex[r.Intn(len(hex))]
+		}
+		return string(b)
+	}
+	raws := []string{"a", "Z", " ", "7", "0", "é", "€", "😀", "\u2028", "/", "x", "u", "{", "}", "\t"}
+	for i := 0; i < n; i++ {
+		d := byte('"')
+		if r.Intn(2) == 0 {
+			d = '\''
+		}
+		var sb strings.Builder
+		k := 1 + r.Intn(7)
+		for j := 0; j < k; j++ {
+			switch r.Intn(14) {
+			case 0, 1, 2:
+				s := raws[r.Intn(len(raws))]
+				if s == "\\u2028" {
+					s = "\u2028"
+				}
+				if s == "\\t" {
+					s = "\t"
+				}
+				sb.WriteString(s)
+			case 3:
+				if d == '"' {
+					sb.WriteByte('\'')
+				} else {
+					sb.WriteByte('"')
+				}
+			case 4:
+				sb.WriteString("\\" + string("bfnrtv"[r.Intn(6)]))
+			case 5:
+				sb.WriteString("\\" + string("'\"\\aceghijklmopqswyzAZ_$ /-"[r.Intn(27)]))
+			case 6:
+				sb.WriteString("\\x" + hx(2))
+			case 7:
+				sb.WriteString("\\u" + hx(4))
+			case 8:
+				v := []int{0x41, 0xe9, 0x7ff, 0x800, 0xffff, 0x10000, 0x1f600, 0x10fffe, 0xd800, 0xdfff, 0x22, 0x5c, 0x0a, 0x35}[r.Intn(14)]
+				if r.Intn(3) == 0 {
+					v = r.Intn(0x10fff0)
+				}
+				f := "%x"
+				if r.Intn(2) == 0 {
+					f = "%X"
+				}
+				s := fmt.Sprintf(f, v)
+				for len(s) < 6 && r.Intn(3) == 0 {
+					s = "0" + s
+				}
+				sb.WriteString("\\u{" + s + "}")
+			case 9:
+				sb.WriteString("\\\n")
+			case 10:
+				sb.WriteString("\\\r\n")
+			case 11:
+				sb.WriteString("\\\r")
+			case 12:
+				sb.WriteString("\\0")
+			case 13:
+				sb.WriteString("\\0" + string("a\\ x"[r.Intn(4)]))
+			}
+		}
+		body := sb.String()
+		want, ok := svEngine(d, body)
+		if !ok {
+			continue
+		}
+		emit(fmt.Sprintf("SV %d %s %s", d, hexOf(body), want))
+	}
+}
+
+// svEngine evaluates the literal in goja: "units=c1.c2..." or "none" (SyntaxError); ok=false when the engine panics.
+func svEngine(d byte, body string) (res string, ok bool) {
+	defer func() {
+		if recover() != nil {
+			res, ok = "", false
+		}
+	}()
+	vm := goja.New()
+	lit := string(d) + body + string(d)
+	v, err := vm.RunString("(function(){var s=" + lit + ";var r=[];for(var i=0;i<s.length;i++){r.push(s.charCodeAt(i))}return r.join('.')})()")
+	if err != nil {
+		return "none", true
+	}
+	return "units=" + v.String(), true
+}
